@@ -868,7 +868,8 @@ def oracle_square_chain(tn, Y, seed=0):
     A = full(Y)
     n = list(A.shape)
     inp = dict(fn='sample_square', Y=[G.tolist() for G in Y], forced='every multi-index; argument forms of n (list, tuple, int32/int64/uint8 array, NumPy scalars, float array / '
-                              'list with integral values) and m (int, float, NumPy scalars), integer / float32 cores', unique=False)
+                              'list with integral values) and m (int, float, NumPy scalars), integer / float32 cores; sample_lhs usage '
+                              'counts on the grid k <= 12, every m <= 400 and m = t*k, t <= 200', unique=False)
     nrm = float((A ** 2).sum())
     if nrm <= 0:
         return None
@@ -954,6 +955,39 @@ def oracle_lhs(tn, n, m, seed):
             return dict(what='sample_lhs: an index of a mode is not used floor(m/n) or ceil(m/n) times',
                         input=inp, got=cnt.tolist(), mode=k)
     return None
+
+
+def lhs_grid(tn, rng, deep):
+    """the floor/ceil usage clause of sample_lhs over a systematic (k, m) grid: every m <= 400 (600 deep) for every
+    mode size k <= 12 (all k in one call), and the exact multiples m = t*k, t <= 200 (300 deep).  Pure counting.
+    Returns (number of evaluations, first failure or None); a failure is reduced to the single mode n = [k]."""
+    ks = list(range(1, 13))
+    n_eval = 0
+
+    def reduce(f, k, m, seed):
+        g = oracle_lhs(tn, [k], m, seed)
+        if g:
+            g['replay'] = dict(fn='sample_lhs', n=[k], m=m, seed=seed)
+            return g
+        return f
+    for m in range(1, (600 if deep else 400) + 1):
+        seed = rng.randrange(10 ** 6)
+        n_eval += 1
+        f = oracle_lhs(tn, ks, m, seed)
+        if f:
+            f['replay'] = dict(fn='sample_lhs', n=ks, m=m, seed=seed)
+            return n_eval, (reduce(f, ks[f['mode']], m, seed) if 'mode' in f else f)
+    top = 600 if deep else 400
+    for k in ks[1:]:
+        for t in range(top // k + 1, (300 if deep else 200) + 1):
+            seed = rng.randrange(10 ** 6)
+            n_eval += 1
+            f = oracle_lhs(tn, [k], t * k, seed)
+            if f:
+                f['replay'] = dict(fn='sample_lhs', n=[k], m=t * k, seed=seed)
+                return n_eval, f
+    return n_eval, None
+
 
 
 def oracle_rand(tn, n, m, seed):
@@ -1447,6 +1481,15 @@ def search(R, ctx, deep, hints):
             fails.append(f)
             if len(fails) >= 5:
                 break
+    # sample_lhs: usage counts over the systematic (k, m) grid (large m, exact multiples)
+    if len(fails) < 5:
+        try:
+            ne, f = lhs_grid(tn, rng, deep)
+            n_eval += ne
+            if f:
+                fails.append(f)
+        except Exception as e:  # noqa
+            fails.append(dict(what='sample_lhs grid could not be evaluated: ' + repr(e)[:300], input=dict(fn='sample_lhs')))
     # an integer seed and the generator it denotes give the same samples (ties the audited runs to int seeds)
     for t in range(10):
         s = rng.randrange(10 ** 6)
@@ -1472,7 +1515,8 @@ def search(R, ctx, deep, hints):
                               'and every sampler for seed None / 0 / 1 / Generator, m as float; non-negative tensors with '
                               'mixed-sign cores (integer unimodular gauge, QR sweep, rotations, Kronecker squares), d = 3..5, '
                               'every multi-index; argument forms of n (list, tuple, int32/int64/uint8 array, NumPy scalars, float array / '
-                              'list with integral values) and m (int, float, NumPy scalars), integer / float32 cores',
+                              'list with integral values) and m (int, float, NumPy scalars), integer / float32 cores; sample_lhs usage '
+                              'counts on the grid k <= 12, every m <= 400 and m = t*k, t <= 200',
                          evaluations=n_eval, failures=len(fails), deep=deep))
     return fails
 
